@@ -257,6 +257,20 @@ SEEDS = [
 ]
 
 
+# value forms only (C04_attr_value_literal / C04_group_bracket_attr): plainly written names
+VALUE_SEEDS = [
+    lit('a', ('set', [attr('b', 'unq', '=(c)', '(c)', 0)])),
+    lit('a', ('set', [attr('on', 'unq', '=f(1)(2,(3))', 'f(1)(2,(3))', 0)])),
+    lit('p', ('set', [attr('t', 'q2', '="x>y*3 [(z)] {\' +"', "x>y*3 [(z)] {' +", 2)])),
+    lit('p', ('set', [attr('t', 'q1', "='a \\' ] (c)'", "a ' ] (c)", 1)])),
+    lit('p', ('set', [attr('t', 'q2', '=" x\ny\\$"', ' x\ny$', 2)])),
+    lit('p', ('set', [attr('t', 'expr', '={ x{y} \\} }', ' x{y} } ', 3)])),
+    lit('p', ('set', [attr('t', 'q2', '=""', '', 2)])),
+    lit('p', ('set', [attr('t', 'expr', '={}', '', 3)])),
+    lit('p', ('set', [attr('t', 'unq', '=a*3/4>.#+^', 'a*3/4>.#+^', 0)])),
+]
+
+
 # ---------------------------------------------------------------- the tie
 def to_json(t):
     if isinstance(t, tuple):
@@ -288,6 +302,10 @@ def gen_cases(ctx, n_elem, n_stmt, n_value):
         jsx = rng.random() < 0.3
         e = rand_elem(rng, jsx)
         cases.append(('element', elem_text(e), jsx, (node_of(e),)))
+    if n_value:
+        for e in VALUE_SEEDS:
+            for jsx in (False, True):
+                cases.append(('value:seed', elem_text(e), jsx, (node_of(e),)))
     for _ in range(n_value):
         # C04_attr_value_literal: one attribute with a plainly written name, every value form, long payloads
         jsx = rng.random() < 0.2
